@@ -127,6 +127,7 @@ class Pair:
         self.sent = [(0, ssnet.CMD_PING, b'chicken')]
         self.delivered = []
         self.dead = False
+        self.starved = None      # (inbuf, want) at a moment the receiver's pre_select did not ask to read the tunnel
 
     def new(self):
         return 'new', 'ok out=%s full=%d' % (lens(self.a.outbuf), self.a.fullness)
@@ -164,6 +165,13 @@ class Pair:
             return line, 'typeError'
         fs = self.b.frames[n0:]
         self.delivered.extend(fs)
+        if tag == 'ok' and self.b.ok and self.starved is None:
+            # the event loop reads the tunnel only if the Mux asks for it: it must always ask while it is alive,
+            # whatever is buffered (a partial frame can only be completed by reading more)
+            r, w, x = [], [], []
+            self.b.pre_select(r, w, x)
+            if self.b.rfile not in r:
+                self.starved = (len(self.b.inbuf), self.b.want)
         if tag != 'ok':
             self.dead = True
             # Python left `want` as it was when the assert fired; the model reports the same
@@ -257,6 +265,11 @@ def pipe_case(ctx, ssnet, rng, nops, big_ok):
 
 
 def oracle_prefix(ctx, p, log, final):
+    if p.starved is not None and final:
+        ctx.violation('C07:loop:mux-stops-reading-with-a-partial-frame-buffered',
+                      case=dict(stream='mux', ops=list(log.ins)),
+                      expected='pre_select asks for the tunnel read file while the Mux is alive',
+                      observed='not asked with %d bytes buffered (want=%d)' % p.starved, kind='ops')
     sent, deliv = p.sent, p.delivered
     ok = (not p.dead) and deliv == sent[:len(deliv)] and (not final or len(deliv) == len(sent))
     if not ok:
@@ -287,6 +300,34 @@ def cuts_case(ctx, ssnet, stream, cuts, frames):
                                                                      inbuf=len(p.b.inbuf), want=p.b.want,
                                                                      failed=p.dead), kind='input')
     log.nontrivial = len(cuts) > 0
+    return log
+
+
+def big_frame_case(ctx, ssnet, payload_len, reads):
+    """One frame larger than the read size arrives in several reads: the receiver must keep asking for the tunnel to
+    be read while the partial frame is buffered, and must decode it (and the frame after it) in the end."""
+    frames = [(5, ssnet.CMD_TCP_DATA, bytes([i % 251 for i in range(payload_len)])), (6, ssnet.CMD_TCP_EOF, b'')]
+    stream = b''.join(encode(f) for f in frames)
+    p = Pair(ssnet)
+    log = CaseLog('big-frame')
+    log.add(p.new())
+    pos = 0
+    k = 0
+    while pos < len(stream) and not p.dead:
+        n = reads[k % len(reads)]
+        k += 1
+        log.add(p.handle('d', stream[pos:pos + n]))
+        pos += n
+    if p.starved is not None:
+        ctx.violation('C07:loop:mux-stops-reading-with-a-partial-frame-buffered',
+                      case=dict(stream='big-frame', payload_len=payload_len, reads=list(reads)),
+                      expected='pre_select asks for the tunnel read file while the Mux is alive',
+                      observed='not asked with %d bytes buffered (want=%d)' % p.starved, kind='input')
+    elif p.dead or p.delivered != frames:
+        ctx.violation('C07:cuts:decoded-differs-from-sent',
+                      case=dict(stream='big-frame', payload_len=payload_len, reads=list(reads)),
+                      expected=show_frames(frames)[:80], observed=dict(delivered=len(p.delivered), failed=p.dead), kind='input')
+    log.nontrivial = True
     return log
 
 
@@ -529,6 +570,9 @@ def gen_cases(ctx):
     logs.append(send_domain_case(ssnet))
     for n, eof in ((129, False), (400, True), (1000, False), (3000, True)):
         logs.append(bulk_case(ctx, ssnet, n, eof))
+    for plen, reads in ((40000, (32768,)), (40000, (20000, 20008)), (65535, (32768,)), (65535, (1000, 32768)),
+                        (32761, (32768,)), (32760, (32767, 1))):
+        logs.append(big_frame_case(ctx, ssnet, plen, reads))
     for grant in (1, 7, 8, 9, 30):
         for plen in (0, 1, 100, 2048):
             logs.append(ping_during_partial_write(ctx, ssnet, rng, grant, plen))
@@ -637,6 +681,10 @@ def replay(ctx, rep):
         c2 = type(ctx)(ctx.prop_id, 'quick', 0)
         ping_during_partial_write(c2, ssnet, random.Random(0), case['grant'], case['payload_len'])
         return bool(c2.violations), (c2.violations[0]['observed'] if c2.violations else 'stream decodes to the frames sent')
+    if case.get('stream') == 'big-frame':
+        c2 = type(ctx)(ctx.prop_id, 'quick', 0)
+        big_frame_case(c2, ssnet, case['payload_len'], tuple(case['reads']))
+        return bool(c2.violations), (str(c2.violations[0]['observed']) if c2.violations else 'the frame is read and decoded')
     if case.get('stream') == 'handshake':
         chunks = [common.unhex(c) for c in case['chunks']]
         kind, val = run_handshake(chunks)
